@@ -29,9 +29,11 @@ Definition safe_inv (cf : config) (s : state) : Prop :=
   | PSend e es o =>
       o = cur_o s /\ map fst lk ++ es = cur_es s /\ ab = false /\
       exists lk0 bs, lk = lk0 ++ [(e, bs)] /\ hit (e, bs) = true /\ sd = hits lk0
-  | PFinal ev | PFinalSend ev =>
+  | PFinal ev =>
       sd = hits lk /\
       ((ev = ev_of (cur_o s) /\ map fst lk = cur_es s /\ ab = false) \/ (ev = EvAbort /\ ab = true /\ pre s))
+  | PFinalSend ev =>     (* only reached in the repaired code, with the flag down: not after an abort *)
+      sd = hits lk /\ ev = ev_of (cur_o s) /\ map fst lk = cur_es s /\ ab = false
   | PStore | PExit | PDone =>
       pre s /\
       (sd = hits lk \/
@@ -73,5 +75,80 @@ Proof.
     all: rewrite ?app_nil_r in *.
     all: try solve [intuition (eauto; try congruence)].
     all: try solve [repeat split; eauto; try congruence; try (left; repeat split; eauto; congruence)].
-    all: idtac "left". Show.
-Abort.
+    all: try solve [match goal with H2 : looks _ = _ ++ [_], H8 : sends _ = hits _, H7 : mem _ _ = true |- _ =>
+           rewrite H2, H8, hits_snoc; unfold hit; cbn [fst snd]; rewrite H7; unfold bp_event; cbn [fst snd];
+           repeat split; auto end].
+    all: try match goal with H : _ \/ _ |- _ => destruct H as [(?&?&?)|(?&?&?)] end; subst.
+    all: try match goal with H : ?P -> _ -> _ -> true = true |- _ => clear H end.
+    all: try match goal with H : ?a = true, H' : ?a = true -> _ -> _ -> false = true |- _ =>
+           exfalso; specialize (H' H); assert (false = true) by (apply H'; discriminate); discriminate end.
+    all: try solve [split; [first [eassumption | exists []; apply app_nil_r] | auto 6]].
+    all: try solve [repeat split; auto].
+    all: try solve [split; [first [eassumption | exists []; apply app_nil_r] | rewrite ?H; auto 8 ]].
+Qed.
+
+Lemma safe_reachable : forall cf cs b s, reachable cf cs b s -> safe_inv cf s /\ struct_inv s.
+Proof.
+  intros cf cs b s Hr. split; [|eapply struct_reachable; eauto].
+  revert cs b s Hr.
+  apply (reachable_ind cf (fun s => safe_inv cf s /\ struct_inv s)).
+  - intros. split; [apply safe_init | apply struct_init].
+  - intros s t s' [H1 H2] Hs. split; [eapply safe_step | eapply struct_step]; eauto.
+Qed.
+
+
+Lemma firstn_app_exact : forall (A : Type) (l r : list A), firstn (length l) (l ++ r) = l.
+Proof. intros. rewrite firstn_app, Nat.sub_diag, firstn_all. cbn. apply app_nil_r. Qed.
+
+Lemma pre_firstn : forall (l ce : list entry), (exists rest, l ++ rest = ce) -> exists n, l = firstn n ce.
+Proof. intros l ce [rest <-]. exists (length l). symmetry. apply firstn_app_exact. Qed.
+
+(* THE SAFETY THEOREM: in every reachable state (any grammar's entry list, breakpoint set, command
+   history, schedule; any channel capacity; with or without the repair) the delivered events are
+   exactly the breakpoint hits of a prefix of the parse, followed at most by the outcome. *)
+Ltac fin := cbn [app]; rewrite ?app_nil_r; repeat split; eauto 8.
+
+Theorem delivery_exact : forall cf cs b s,
+  reachable cf cs b s -> delivery_ok (negb (fixed cf)) s.
+Proof.
+  intros cf cs b s Hr. destruct (safe_reachable _ _ _ _ Hr) as [Hs Hst].
+  destruct Hst as (_ & _ & _ & Hnone).
+  unfold delivery_ok, safe_inv, pre in *.
+  destruct (p_pc s) eqn:Epc.
+  - (* PNone *) rewrite (Hnone eq_refl). exists [], [], [], 0. fin.
+  - destruct Hs as (-> & -> & H1 & H2 & H3). rewrite H1, H2. exists [], [], [], 0. fin.
+  - destruct Hs as (-> & H1 & H2 & H3).
+    exists (looks (log s)), [], [], (length (map fst (looks (log s)))).
+    rewrite app_nil_r, <- H1, firstn_app_exact. fin.
+  - destruct Hs as (-> & H1 & H2 & H3).
+    exists (looks (log s)), [], [], (length (map fst (looks (log s)))).
+    rewrite app_nil_r, <- H1, firstn_app_exact. fin.
+  - destruct Hs as (-> & H1 & H3 & lk0 & bs & H4 & H5 & H6).
+    exists lk0, [(e, bs)], [], (length (map fst (looks (log s)))).
+    rewrite app_nil_r, <- H1, firstn_app_exact. fin.
+  - destruct Hs as (-> & H1 & H2 & H3).
+    exists (looks (log s)), [], [], (length (map fst (looks (log s)))).
+    rewrite app_nil_r, <- H1, firstn_app_exact. fin.
+  - destruct Hs as (H1 & [(H2 & H3 & H4)|(H2 & H3 & H4)]).
+    + exists (looks (log s)), [], [], (length (cur_es s)). rewrite app_nil_r, H3, firstn_all. fin.
+    + destruct (pre_firstn _ _ H4) as [n Hn]. exists (looks (log s)), [], [], n. rewrite app_nil_r. fin.
+  - destruct Hs as (H1 & H2 & H3 & H4).
+    exists (looks (log s)), [], [], (length (cur_es s)). rewrite app_nil_r, H3, firstn_all. fin.
+  - destruct Hs as (Hp & Ht). destruct (pre_firstn _ _ Hp) as [n Hn].
+    destruct Ht as [Ht|[(Ht & H3 & H4)|(Ht & H3 & H4)]].
+    + exists (looks (log s)), [], [], n. rewrite app_nil_r. fin.
+    + exists (looks (log s)), [], [ev_of (cur_o s)], n. rewrite app_nil_r. fin.
+    + exists (looks (log s)), [], [EvAbort], n. rewrite app_nil_r, H3. fin.
+  - destruct Hs as (Hp & Ht). destruct (pre_firstn _ _ Hp) as [n Hn].
+    destruct Ht as [Ht|[(Ht & H3 & H4)|(Ht & H3 & H4)]].
+    + exists (looks (log s)), [], [], n. rewrite app_nil_r. fin.
+    + exists (looks (log s)), [], [ev_of (cur_o s)], n. rewrite app_nil_r. fin.
+    + exists (looks (log s)), [], [EvAbort], n. rewrite app_nil_r, H3. fin.
+  - destruct Hs as (Hp & Ht). destruct (pre_firstn _ _ Hp) as [n Hn].
+    destruct Ht as [Ht|[(Ht & H3 & H4)|(Ht & H3 & H4)]].
+    + exists (looks (log s)), [], [], n. rewrite app_nil_r. fin.
+    + exists (looks (log s)), [], [ev_of (cur_o s)], n. rewrite app_nil_r. fin.
+    + exists (looks (log s)), [], [EvAbort], n. rewrite app_nil_r, H3. fin.
+  - destruct Hs as (Hp & Ht & Hab). destruct (pre_firstn _ _ Hp) as [n Hn].
+    exists (looks (log s)), [], [], n. rewrite app_nil_r. fin.
+Qed.
